@@ -458,6 +458,10 @@ def neighbour_domain(comp: Competition, u: UpdateSite) -> Tuple[str, Optional[Te
             return ("range", dom)
         if dom[0] == "attr" and dom[2] == "adjacency":
             return ("adjacency", dom[1])
+        if dom[0] == "idx" and dom[1][0] == "attr" and dom[1][2] == "adjacency" and dom[2][0] == "slice" \
+                and dom[2][1] in (None, ("const", 0)) and dom[2][2] is not None and dom[2][3] in (None, ("const", 1)):
+            # `for q in N.adjacency[:bound]`: the first `bound` entries, like q = N.adjacency[k] for k in range(bound)
+            return ("adjprefix", dom[1][1], dom[2][2])
         return ("unknown", dom)
     if q[0] == "idx" and q[1][0] == "attr" and q[1][2] == "adjacency":
         k = q[2]
